@@ -138,7 +138,7 @@ def check(repo, res, tier):
     res.rule("R-BUDGET", "all solving entry points give their library integrator the same internal step budget per output interval")
     n2 = IX.check_entrypoints(repo, res)
     res.rule("R-FRESH", "a solve returns the solution of the model as it stands: no stale result after the initial state, initial time or parameters change")
-    n3 = IX.check_histories(repo, res)
+    n3 = IX.check_histories(repo, res, tier=tier)
     res.floor("solve histories interpreted", n3, 300)
     res.floor("entry-point cases interpreted", n2, 36)
     res.functions |= set(_ai.INLINED)
